@@ -270,6 +270,24 @@ class Molecule(BigSMILESbase):
                                 graph_bd, element_bd, term_prob=element_bd.weight / end_weight
                             )
 
+        def enters_through_left_terminal(graph_bd, next_element):
+            # Generation hands a bond descriptor over to a stochastic object
+            # if its text equals the left terminal descriptor (the bond order is kept).
+            left_terminal = next_element.left_terminal
+            return graph_bd.generate_string(False) == left_terminal.generate_string(False)
+
+        def add_listed_left_terminal_transitions(graph_bd, next_element):
+            # The bond that enters a stochastic object uses the transition weights listed
+            # on its left terminal bond descriptor (as generation does).
+            left_terminal = next_element.left_terminal
+            if left_terminal.transitions is None:
+                return False
+            if graph_bd.generate_string(False) == left_terminal.generate_string(False):
+                for i, p in enumerate(left_terminal.transitions / left_terminal.weight):
+                    if p > 0:
+                        G.add_edge(graph_bd, next_element.bond_descriptors[i], trans_prob=p)
+            return True
+
         # Add transitions between elements
         for graph_bd in bond_descriptors:
             res = bond_descriptors[graph_bd]
@@ -292,12 +310,16 @@ class Molecule(BigSMILESbase):
                         if graph_bd.is_compatible(other_bd):
                             G.add_edge(graph_bd, other_bd, trans_prob=1.0)
 
-                if isinstance(element, SmilesToken) and isinstance(next_element, Stochastic):
+                if (
+                    isinstance(element, SmilesToken)
+                    and isinstance(next_element, Stochastic)
+                    and not add_listed_left_terminal_transitions(graph_bd, next_element)
+                ):
                     total_weight = 0
                     for other_bd in next_element.bond_descriptors:
                         if (
                             graph_bd.is_compatible(other_bd)
-                            and other_bd.is_compatible(next_element.left_terminal)
+                            and enters_through_left_terminal(graph_bd, next_element)
                             and bond_descriptors[other_bd] in next_element.repeat_tokens
                         ):
                             total_weight += other_bd.weight
@@ -307,7 +329,7 @@ class Molecule(BigSMILESbase):
                     for other_bd in next_element.bond_descriptors:
                         if (
                             graph_bd.is_compatible(other_bd)
-                            and other_bd.is_compatible(next_element.left_terminal)
+                            and enters_through_left_terminal(graph_bd, next_element)
                             and bond_descriptors[other_bd] in next_element.repeat_tokens
                         ):
                             G.add_edge(
@@ -324,12 +346,21 @@ class Molecule(BigSMILESbase):
                         ):
                             G.add_edge(graph_bd, other_bd, trans_prob=1.0)
 
-                if isinstance(element, Stochastic) and isinstance(next_element, Stochastic):
+                if (
+                    isinstance(element, Stochastic)
+                    and isinstance(next_element, Stochastic)
+                    and not (
+                        graph_bd.is_compatible(element.right_terminal)
+                        and bond_descriptors[graph_bd] in element.repeat_tokens
+                        and add_listed_left_terminal_transitions(graph_bd, next_element)
+                    )
+                    and next_element.left_terminal.transitions is None
+                ):
                     total_weight = 0
                     for other_bd in next_element.bond_descriptors:
                         if (
                             graph_bd.is_compatible(other_bd)
-                            and other_bd.is_compatible(next_element.left_terminal)
+                            and enters_through_left_terminal(graph_bd, next_element)
                             and bond_descriptors[other_bd] in next_element.repeat_tokens
                             and graph_bd.is_compatible(element.right_terminal)
                             and bond_descriptors[graph_bd] in element.repeat_tokens
@@ -341,7 +372,7 @@ class Molecule(BigSMILESbase):
                     for other_bd in next_element.bond_descriptors:
                         if (
                             graph_bd.is_compatible(other_bd)
-                            and other_bd.is_compatible(next_element.left_terminal)
+                            and enters_through_left_terminal(graph_bd, next_element)
                             and bond_descriptors[other_bd] in next_element.repeat_tokens
                             and graph_bd.is_compatible(element.right_terminal)
                             and bond_descriptors[graph_bd] in element.repeat_tokens
